@@ -26,17 +26,20 @@ Proof.
            end; inversion H; reflexivity.
 Qed.
 
-(* link arity: Ok iff the template exists, exactly its slots are bound and the new id is unused *)
+(* link arity: Ok iff the template exists, is not the body of a present static policy, exactly its
+   slots are bound and the new id is unused *)
 Lemma ps_link_ok_iff s tmpl new env :
   (exists s', ps_link s tmpl new env = OOk s') <->
-  (exists t, alookup tmpl (ps_templates s) = Some t /\ check_binding t env = true /\ bound s new = false).
+  (exists t, alookup tmpl (ps_templates s) = Some t /\ (t_is_static t && amem tmpl (ps_links s)) = false /\
+             check_binding t env = true /\ bound s new = false).
 Proof.
   unfold ps_link, bound. split.
   - intros [s' H]. destruct (alookup tmpl (ps_templates s)) as [t|]; [|discriminate].
-    exists t. destruct (check_binding t env); cbn in H; [|discriminate].
+    exists t. destruct (t_is_static t && amem tmpl (ps_links s)); [discriminate|].
+    destruct (check_binding t env); cbn in H; [|discriminate].
     destruct (amem new (ps_links s)); [discriminate|].
     destruct (amem new (ps_templates s)); [discriminate|]. auto.
-  - intros [t [Ht [Hb Hn]]]. rewrite Ht, Hb. cbn.
+  - intros [t [Ht [Hst [Hb Hn]]]]. rewrite Ht, Hst, Hb. cbn.
     apply Bool.orb_false_iff in Hn as [H1 H2]. rewrite H1, H2. eauto.
 Qed.
 
